@@ -21,7 +21,8 @@ ASSUMPTIONS = ["validity-by-construction encodes my reading of the HED rules thr
                "conservative pools: nodes carrying or inheriting placement/uniqueness/deprecation attributes are only "
                "used through their dedicated templates",
                "unit names containing a blank are not generated here (open C11 finding)"]
-MIN_MONITOR_EVALS = {"valid-no-error": 1000, "mutant-has-code": 1000, "sweep-node": 500}
+MIN_MONITOR_EVALS = {"valid-no-error": 1000, "mutant-has-code": 1000, "sweep-node": 500,
+                     "cross-schema-history": 1000}
 WATCHDOG_S = {"quick": 900, "thorough": 3600}
 
 
@@ -36,7 +37,75 @@ def shards(tier, seed):
     for v in env.BUNDLED:
         for i in range(0, per, chunk):
             out.append(dict(kind="random", version=v, n=chunk, stream=i, muts=(10 if tier == "thorough" else 7)))
+    for a, b in CROSS_PAIRS:
+        for part in range(2 if tier == "quick" else 8):
+            out.append(dict(kind="cross", version=a, other=b, part=part, parts=8))
     return out
+
+
+CROSS_PAIRS = [("8.0.0", "8.3.0"), ("8.1.0", "8.3.0"), ("8.2.0", "8.3.0"), ("score_1.0.0", "score_2.0.0"),
+               ("testlib_2.0.0", "testlib_3.0.0"), ("8.2.0", "score_1.1.0")]
+
+
+def _cross_expect(gen, name_cf, kind, value_node=None):
+    """Expected verdict of 'Name/suffix' under the schema of gen, from that schema's XML alone; None = not judged."""
+    n = gen.o.by_short.get(name_cf)
+    if n is None:
+        return "TAG_INVALID"
+    if kind == "ext":
+        if n in gen._ext_set:
+            return "valid"
+        if n in gen._noext_set:
+            return "TAG_EXTENSION_INVALID"
+        return None
+    if n not in gen._value_set:
+        return None
+    if value_node is not None and value_node is not n:
+        same = (sorted(gen.o.unit_classes_of(n)) == sorted(value_node[1]) and
+                sorted(gen.o.value_classes_of(n)) == sorted(value_node[2]))
+        return "valid" if same else None
+    return "valid"
+
+
+def run_cross(shard, rec):
+    """History across schema objects in one process: the same tag text validated alternately under two loaded
+    schemas must each time get the verdict that schema's own XML prescribes."""
+    rng = rec.rng
+    va, vb = shard["version"], shard["other"]
+    rng.seed(f"c01-cross-{va}-{vb}-{shard['part']}-{rng.random()}")
+    gens = {}
+    for v in (va, vb):
+        env.schema(v)                                   # both loaded before anything is validated
+        g = annot.AnnotGen(schema_xml.load(v), rng)
+        g._ext_set, g._noext_set, g._value_set = set(g.ext), set(g.noext), set(g.values)
+        gens[v] = g
+    names = sorted(set(gens[va].o.by_short) | set(gens[vb].o.by_short))
+    for name_cf in names[shard["part"]::shard["parts"]]:
+        texts = []
+        owner = gens[va] if name_cf in gens[va].o.by_short else gens[vb]
+        n = owner.o.by_short[name_cf]
+        if n in owner._value_set:
+            val = owner.value_for(n)
+            texts.append(("value", n.name + "/" + val, (n, owner.o.unit_classes_of(n), owner.o.value_classes_of(n)), owner))
+        elif not n.takes_value:
+            texts.append(("ext", n.name + "/" + rng.choice(annot.EXT_WORDS), None, owner))
+        for kind, text, vnode, own in texts:
+            expect = {}
+            for v, g in gens.items():
+                if kind == "value":
+                    expect[v] = "valid" if g is own else _cross_expect(g, name_cf, kind, vnode)
+                else:
+                    expect[v] = _cross_expect(g, name_cf, kind)
+            differs = len({e for e in expect.values() if e}) > 1
+            for v in (va, vb, va, vb):
+                if expect[v] is None:
+                    continue
+                rec.mon("cross-schema-history")
+                rec.count("cross-expect", f"{expect[v]}{' (other schema differs)' if differs else ''}")
+                case = dict(schema=v, defs=[], text=text, allow_placeholders=False, expect=expect[v], kind="cross",
+                            history=[va, vb, va, vb])
+                rec.case((v, vb if v == va else va, text), nontrivial=differs)
+                check_case(case, rec)
 
 
 def classify(case, codes):
@@ -82,6 +151,9 @@ def run_shard(shard, rec):
     rng = rec.rng
     v = shard["version"]
     o = schema_xml.load(v)
+    if shard["kind"] == "cross":
+        run_cross(shard, rec)
+        return
     if shard["kind"] == "sweep":
         rng.seed(f"c01-sweep-{v}-{shard['part']}-{rng.random()}")
         gen = annot.AnnotGen(o, rng)
@@ -167,4 +239,14 @@ def finalize(merged, tier, inconclusive):
 
 
 def replay(case, rec):
+    if case.get("kind") == "cross":
+        from hed.models.hed_string import HedString
+        for v in case["history"]:
+            env.schema(v)
+        for v in case["history"]:                       # re-create the history; only the recorded schema is judged
+            if v != case["schema"]:
+                HedString(case["text"], env.schema(v)).validate(allow_placeholders=False)
+            else:
+                check_case(case, rec)
+        return
     check_case(case, rec)
